@@ -29,13 +29,14 @@ def routineOf (name : String) (check : Bool) : Option Routine :=
 
 /-- the uninterpreted pure work, instantiated by something: a zone is the lines it is written as; `check` fails on
     request; a zone file holding the line "garbage" does not parse -/
-def dummyWork (failstage : Int) : Model.C16.Work String (List String) String where
+def dummyWork (failstage : Int) (same : Bool := true) : Model.C16.Work String (List String) String where
   compute := fun _ rc => rc
   render := id
   parse := fun c => if c == ["garbage"] then .error .valueError else .ok c
   check := fun _ stage _ => if (stage : Int) == failstage then .error .valueError else .ok ()
   score := fun _ _ _ => .ok "value"
   exportLines := fun _ _ _ => ["ATOM"]
+  sameAtoms := fun _ => same
 
 def optBool (j : Json) (k : String) (dflt : Bool) : Bool :=
   match j.getObjVal? k with
@@ -62,7 +63,7 @@ def effectsOp (r : Routine) (j : Json) : Except String Json := do
   let zone := optStr j "zone" "none"
   let exports := match j.getObjVal? "exports" with | .ok v => (v.getNat?.toOption.getD 0) | _ => 0
   let missing := strList j "missing"
-  let W := dummyWork (match j.getObjVal? "failstage" with | .ok v => (v.getInt?.toOption.getD (-1)) | _ => -1)
+  let W := dummyWork (match j.getObjVal? "failstage" with | .ok v => (v.getInt?.toOption.getD (-1)) | _ => -1) (!(optBool j "intersect" false))
   let a : Args String := {
     decoy := "decoy", ref := "ref", tmp := "tmp",
     zone := if zone == "none" then none else some "zone",
